@@ -6,7 +6,9 @@ legs: MC   TLC explores all histories of <= 5 calls (parse / execute(object) / e
            only --, never an error when the parameters match, data unchanged, positional binding by TEXT position.
            On the mechanism as shipped (truthiness classification of the stored names) TLC must find
            Parse; Execute; Execute on two positional placeholders (non-vacuity).  Folding law Eval(Fold(e)) = Eval(e)
-           over the expression space.
+           over the expression space (operators; AND / OR / NOT / IS NULL over NULL, TRUE, FALSE, a bool column and
+           comparisons that are NULL in some rows); the short-cut "a constant FALSE decides an AND wherever it
+           stands" must be rejected (NULL AND FALSE is NULL).
       S2C  every history TLC emits (plus simulated deeper ones) is replayed on ONE connection with re-used parsed
            statement objects, interleaved with other statements, through execute and executemany; each result is
            compared with the specification and with a fresh single execution of the literal-substituted text; the
@@ -14,8 +16,10 @@ legs: MC   TLC explores all histories of <= 5 calls (parse / execute(object) / e
            expression TLC emits is run as SELECT e FROM # and as SELECT e[consts->columns] FROM #k (one row holding
            the constants) and compared with the specification's value; a wider set (decimals, dates, functions,
            row- and context-dependent functions) is compared folded vs per-row.
-      C2S  random histories of <= 40 calls (modelled statements and ledger statements outside the model) are
-           recorded and replayed by TLC through BQLSession's steps (Trace_BQLSession).
+      C2S  random histories of <= 40 calls (modelled statements and ledger statements outside the model, on two
+           connections over the same data) are recorded and replayed by TLC through BQLSession's steps
+           (Trace_BQLSession).  Every ledger statement is first (and last) executed on a connection of its own:
+           TLC holds every later result against that history-free one.
 """
 import copy
 import datetime
@@ -115,6 +119,57 @@ def literal_text(text_q, p, st):
     return bm.render_select(fq(text_q), st)
 
 
+# ---- the folding cases' expressions: BQLMiniSem's kinds + or / not / isnull (BQLSession.EvalX) ---------------
+CONNECTIVES = {'and': ' AND ', 'or': ' OR '}
+
+
+def render_x(e, st, top=True):
+    """BQL text of a folding expression.  A left-nested chain of one connective is written without parentheses
+    (`a AND b AND c`: the parser builds ONE n-ary node for it), everything else below an operator in parentheses."""
+    k = e['k']
+    if k in CONNECTIVES:
+        left = render_x(e['l'], st, e['l']['k'] == k)
+        s = left + CONNECTIVES[k] + render_x(e['r'], st, False)
+    elif k == 'not':
+        s = 'NOT ' + render_x(e['e'], st, False)
+    elif k == 'isnull':
+        s = render_x(e['e'], st, False) + ' IS NULL'
+    else:
+        return bm.render_expr(e, st, top)
+    return s if top else '(%s)' % s
+
+
+def build_x(e, st):
+    """the same expression as a hand-built AST (what the parser returns for render_x's text, without source positions)"""
+    from beanquery.parser import ast
+    k = e['k']
+    if k in CONNECTIVES:
+        args, node = [], e
+        while node['k'] == k:                   # the unparenthesised left chain: one n-ary node
+            args.append(build_x(node['r'], st))
+            node = node['l']
+        args.append(build_x(node, st))
+        return (ast.And if k == 'and' else ast.Or)(args[::-1])
+    if k == 'not':
+        return ast.Not(build_x(e['e'], st))
+    if k == 'isnull':
+        return ast.IsNull(build_x(e['e'], st))
+    return bm.build_expr(e, st)
+
+
+def map_consts(e, f):
+    """the expression with every constant replaced by f(value), visited in text order"""
+    k = e['k']
+    if k == 'c':
+        return f(e['v'])
+    if k in ('bin', 'and', 'or'):
+        left = map_consts(e['l'], f)
+        return dict(e, l=left, r=map_consts(e['r'], f))
+    if k in ('not', 'isnull'):
+        return dict(e, e=map_consts(e['e'], f))
+    return e
+
+
 class Stmt:
     """a statement of the specification: its text, a parsed template, fresh statement objects on demand"""
 
@@ -180,6 +235,33 @@ LEDGER_STMTS = [
     ("SELECT account, balance, number FROM #postings WHERE number > %(lo)s AND number < %(hi)s LIMIT 25",
      [{'lo': D('10'), 'hi': D('50')}, {'lo': D('50'), 'hi': D('10')}, {'hi': D('400'), 'lo': D('-400')}]),
 ]
+
+
+def ledger_statements(entries):
+    """LEDGER_STMTS + statements whose FROM clause carries the qualifiers OPEN ON / CLOSE [ON] / CLEAR (alone, together,
+    after a filter expression, under BALANCES / JOURNAL), scans of the other ledger table and plain scans of the default
+    one -- dates taken from the ledger: a third and two thirds into its transactions"""
+    from beancount.core import data
+    dates = [e.date for e in entries if isinstance(e, data.Transaction)] or [datetime.date(2022, 1, 10), datetime.date(2022, 1, 23)]
+    d1, d2 = dates[len(dates) // 3], dates[2 * len(dates) // 3]
+    none = [()]
+    return LEDGER_STMTS + [
+        ("SELECT date, account, number ORDER BY date, account, number", none),
+        ("SELECT account, sum(number) AS total FROM OPEN ON %s GROUP BY account ORDER BY account" % d1, none),
+        ("SELECT date, narration, account, number FROM CLOSE ON %s WHERE number > %%s ORDER BY date, account, number" % d2,
+         [(D('0'),), (D('100'),), (D('-100000'),)]),
+        ("SELECT account, sum(number) AS total FROM OPEN ON %s CLOSE ON %s CLEAR WHERE number > %%(lo)s GROUP BY account ORDER BY account"
+         % (d1, d2), [{'lo': D('0')}, {'lo': D('-100000')}, {'lo': D('50'), 'hi': 0}]),
+        ("SELECT count(*) AS n, sum(number) AS s FROM CLEAR", none),
+        ("SELECT date, flag, account, number FROM year = %d CLOSE" % d2.year, none),
+        ("SELECT account, count(*) AS n FROM account ~ %%s OPEN ON %s GROUP BY account ORDER BY account" % d1, [('Assets',), ('Expenses',)]),
+        ("SELECT date, type FROM #entries ORDER BY date, type", none),
+        ("SELECT date, type FROM #entries WHERE date < %%(d)s" % (), [{'d': d1}, {'d': d2}]),
+        ("BALANCES FROM CLOSE ON %s" % d2, none),
+        ("JOURNAL 'Assets:US:BofA:Checking' FROM OPEN ON %s" % d1, none),
+    ]
+
+
 # statements whose results must not depend on what ran before on the connection (or in the process): each pair is
 # (statement, an equivalent formulation); SELECT * FROM (q) = q is the law C08 model-checks (StarIdentity)
 PROBES = [
@@ -221,10 +303,13 @@ class Session:
             entries, errors, options = c08mod.example_ledger(ctx.seed, ctx.pick(40, 120))
             self.entries = entries
             self.entries_snapshot = copy.deepcopy(entries)
-            self.conn = beanquery.connect('beancount:', entries=entries, errors=errors, options=options)
+            self.ledger = (entries, errors, options)
+            self.conn = self.connect()
+            self.conn2 = self.connect()      # a second connection over the same data, alive during the whole recording
         else:
             self.entries = self.entries_snapshot = []
-            self.conn = beanquery.Connection()
+            self.ledger = None
+            self.conn = self.conn2 = beanquery.Connection()
         bm.install_tables(self.conn, self.tabs, self.st)
         self.table_snapshot = {n: list(self.conn.tables[n].rows) for n in self.tabs if n}
         self.stmts = [Stmt(s, self.st) for s in setup['stmts']]
@@ -232,13 +317,60 @@ class Session:
         self.cursor = self.conn.cursor()
         self.refs = {}
         self.others = [bm.parsed(t) for t in OTHER_STMTS if ledger or 'postings' not in t and 'entries' not in t]
-        self.ledger_stmts = [(t, bm.parsed(t), ps) for t, ps in LEDGER_STMTS] if ledger else []
+        self.ledger_stmts = [(t, bm.parsed(t), ps) for t, ps in ledger_statements(self.entries)] if ledger else []
+        self.cursor2 = self.conn2.cursor()
+        self.ledger_refs = {}
+        self.leg = 'S2C'
         self.counts = {}
         self.has_tu = 't' in self.conn.tables and 'u' in self.conn.tables and all(
             c in self.conn.tables['t'].columns for c in ('x', 's')) and 'y' in self.conn.tables['u'].columns
 
     def count(self, k, n=1):
         self.counts[k] = self.counts.get(k, 0) + n
+
+    def connect(self):
+        """a NEW connection over the same ledger entries"""
+        import beanquery
+        entries, errors, options = self.ledger
+        return beanquery.connect('beancount:', entries=entries, errors=errors, options=options)
+
+    def run_ledger(self, cursor, k, i, op='execute', tree=None):
+        """ledger statement k with its i-th parameters -> {'ok', 'hash', ..}"""
+        text, parsed, plist = self.ledger_stmts[k]
+        try:
+            if op == 'execute':
+                cursor.execute(tree if tree is not None else parsed, plist[i[0]])
+            elif op == 'many':
+                cursor.executemany(text, [plist[x] for x in i])
+            else:
+                cursor.execute(text, plist[i[0]])
+            return {'ok': True, 'hash': digest(cursor.description, cursor.fetchall())}
+        except Exception as ex:  # noqa
+            return {'ok': False, 'hash': 'EXC', 'exc': type(ex).__name__, 'msg': str(ex)[:120]}
+
+    def fresh_ledger(self, k, i):
+        """the statement's text executed once on a connection of its own"""
+        return self.run_ledger(self.connect().cursor(), k, [i], 'text')
+
+    def check_ledger(self, rng, case):
+        """a ledger statement on the shared connection (whatever ran before) vs on a connection of its own"""
+        k = rng.randrange(len(self.ledger_stmts))
+        text, tree, plist = self.ledger_stmts[k]
+        i = rng.randrange(len(plist))
+        if (k, i) not in self.ledger_refs or rng.random() < 0.05:
+            ref = self.fresh_ledger(k, i)       # (now and then again: a connection made AFTER the history)
+            first = self.ledger_refs.setdefault((k, i), ref)
+            if ref != first:
+                self.ctx.violation('history:ledger:fresh-connections-differ', 'two fresh connections over the same entries disagree: %s' % text,
+                                   dict(case, ledger=text, params=repr(plist[i])), self.leg, first, ref)
+        ref = self.ledger_refs[(k, i)]
+        obs = self.run_ledger(self.cursor, k, [i], 'execute' if rng.random() < 0.7 else 'text')
+        self.count('ledger_checked')
+        self.ctx.case('ledger|%d|%d' % (k, i), nontrivial=any(w in text for w in ('OPEN', 'CLOSE', 'CLEAR')))
+        if (obs['ok'] != ref['ok'] or obs['hash'] != ref['hash']):
+            self.ctx.violation('history:ledger:%s' % ('differs-from-fresh-connection' if obs['ok'] else 'exception:%s' % obs.get('exc')),
+                               'a ledger statement after other executions on the connection vs on a fresh connection over the same '
+                               'entries: %s' % text, dict(case, ledger=text, params=repr(plist[i])), self.leg, ref, obs)
 
     def data_same(self):
         ok = all(self.conn.tables[n].rows == rows for n, rows in self.table_snapshot.items())
@@ -291,11 +423,7 @@ class Session:
                 self.cursor.fetchone()
         elif r < 0.3 and self.ledger_stmts:
             self.count('interleaved')
-            t, tree, ps = rng.choice(self.ledger_stmts)
-            try:
-                self.cursor.execute(tree, rng.choice(ps))
-            except Exception:  # noqa
-                pass
+            self.check_ledger(rng, {'kind': 'ledger'})
 
 
 def probe(ctx, sess, rng, case):
@@ -383,50 +511,71 @@ def replay_history(ctx, sess, hist, hid, rng):
 
 
 # ---- folding ----------------------------------------------------------------------------------------------------
+SPEC_COLTYPE = {'i': 'int', 's': 'str', 'b': 'bool', 'n': 'bool'}      # a NULL constant: a bool column holding NULL
+
+
 def consts_to_columns(e, cols):
     """replace every constant by a column of the one-row table #k holding it; cols: [(name, type, python value)]"""
-    k = e.get('k')
-    if k == 'c':
-        tag, n = e['v']
-        for name, ty, v in cols:
-            if (ty, v) == (tag, n):
+    def column(v):
+        tag, n = v
+        for name, ty, val in cols:
+            if (ty, val) == (tag, n):
                 return {'k': 'col', 'n': name}
         name = 'k%d' % len(cols)
         cols.append((name, tag, n))
         return {'k': 'col', 'n': name}
-    if k in ('bin', 'and'):
-        return dict(e, l=consts_to_columns(e['l'], cols), r=consts_to_columns(e['r'], cols))
-    return e
+    return map_consts(e, column)
+
+
+def consts_to_params(e, st, named):
+    """replace every constant by a placeholder: `%s` (k-th of the text <- k-th value) or `%(pN)s` (one name per
+    distinct value: equal constants repeat the name); -> (expression, parameters)"""
+    seq, names = [], {}
+
+    def placeholder(v):
+        if named:
+            nm = names.setdefault(tuple(v), 'p%d' % len(names))
+            return {'k': 'ph', 'pos': 0, 'nm': nm}
+        seq.append(bm.to_py(v, st))
+        return {'k': 'ph', 'pos': len(seq), 'nm': ''}
+    e2 = map_consts(e, placeholder)
+    return e2, ({nm: bm.to_py(list(v), st) for v, nm in names.items()} if named else tuple(seq))
 
 
 def fold_case(ctx, conn, st, case, n):
-    import beanquery  # noqa
+    from beanquery.parser import ast
     from harness import tables as ht
     e, v = case['e'], case['v']
-    sel = lambda expr, tab: {'k': 'select', 'star': False, 'tg': [{'e': expr, 'nm': 'r'}], 'from': {'k': 'tab', 'n': tab},  # noqa
-                             'wh': {'k': 'none'}, 'ord': [], 'dis': False, 'lim': -1}
-    q1 = sel(e, '')
+    text = lambda expr, tab: 'SELECT %s AS r FROM #%s' % (render_x(expr, st), tab)      # noqa
+    tree = lambda expr, tab: ast.Select([ast.Target(build_x(expr, st), 'r')], ast.Table(tab), None, None, None, None, None, None)  # noqa
+    t1 = text(e, '')
     if n % 10 == 0:
-        folded = bm.project(bm.run_raw(conn, bm.parsed(bm.render_select(q1, st))), st)
+        folded = bm.project(bm.run_raw(conn, bm.parsed(t1)), st)
     else:
-        folded = bm.project(bm.run_raw(conn, bm.build_select(q1, st)), st)
+        folded = bm.project(bm.run_raw(conn, tree(e, '')), st)
     cols = []
     e2 = consts_to_columns(e, cols)
-    conn.tables['k'] = ht.HarnessTable('k', [(c[0], {'i': 'int', 's': 'str', 'b': 'bool'}[c[1]]) for c in cols],
+    conn.tables['k'] = ht.HarnessTable('k', [(c[0], SPEC_COLTYPE[c[1]]) for c in cols],
                                        [tuple(bm.to_py([c[1], c[2]], st) for c in cols)])
-    perrow = bm.project(bm.run_raw(conn, bm.build_select(sel(e2, 'k'), st)), st)
+    perrow = bm.project(bm.run_raw(conn, tree(e2, 'k')), st)
+    legs = [('folded', folded), ('per-row', perrow)]
+    if n % 6 == 0:
+        # the constants as parameters (a placeholder needs its source position: through the parser)
+        e3, params = consts_to_params(e, st, named=n % 12 == 0)
+        legs.append(('parameters', bm.project(bm.run_raw(conn, bm.parsed(text(e3, '')), params), st)))
     exp = {'ok': True, 'rows': [[v]]}
-    rec = {'kind': 'fold', 'e': e, 'v': v, 'text': bm.render_select(q1, st)}
+    rec = {'kind': 'fold', 'e': e, 'v': v, 'text': t1}
     good = True
-    for name, obs in (('folded', folded), ('per-row', perrow)):
+    for name, obs in legs:
         if not obs['ok'] or obs['rows'] != exp['rows']:
             ctx.violation('fold:%s:%s' % (name, 'value' if obs['ok'] else 'exception:%s' % obs.get('exc')),
                           'constant expression, %s evaluation vs the specification' % name, rec, 'S2C', v, obs)
             good = False
-    if good and folded['desc'][0][1] != perrow['desc'][0][1]:
-        ctx.violation('fold:type', 'announced type of the folded constant vs the per-row expression', rec, 'S2C',
-                      perrow['desc'], folded['desc'])
-        good = False
+    for name, obs in legs[1:]:
+        if good and folded['desc'][0][1] != obs['desc'][0][1]:
+            ctx.violation('fold:type' if name == 'per-row' else 'fold:type:' + name,
+                          'announced type of the folded constant vs the %s expression' % name, rec, 'S2C', obs['desc'], folded['desc'])
+            good = False
     return good
 
 
@@ -479,11 +628,37 @@ RICH = [   # (expression template, [(constant values..)..]) -- `{0}` .. are the 
     ("grep({0}, {1})", [('F.o', 'xxFoodyy'), ('z', 'abc')]),
     ("subst({0}, {1}, {2})", [('o+', '0', 'foo boo')]),
     ("today() > {0}", [(datetime.date(2020, 1, 1),)]),
+    # boolean connectives: NULL / TRUE / FALSE operands in every order, NULL-valued operator results (x / 0, x % 0) and
+    # operands of other types (truthiness) before and after a deciding constant; observable as an output, under
+    # IS NULL, NOT and coalesce
+    ("{0} AND {1}", [(None, False), (False, None), (True, None), (None, True), (True, False), (None, None), (0, True), ('', None), (D('0.0'), 'x')]),
+    ("{0} OR {1}", [(None, True), (True, None), (None, False), (False, None), (False, False), (0, ''), (None, 'x')]),
+    ("{0} AND {1} AND {2}", [(True, None, False), (None, False, True), (True, True, None), (True, False, None)]),
+    ("{0} OR {1} OR {2}", [(False, None, True), (None, False, False), (False, False, None)]),
+    ("{0} AND {1} OR {2}", [(None, False, False), (None, False, True), (True, None, False)]),
+    ("{0} OR {1} AND {2}", [(False, None, False), (None, True, False)]),
+    ("({0} AND {1}) IS NULL", [(None, False), (False, None), (True, True)]),
+    ("({0} OR {1}) IS NULL", [(None, False), (None, True), (False, None)]),
+    ("NOT ({0} AND {1})", [(None, False), (True, None), (False, None)]),
+    ("NOT ({0} OR {1})", [(None, False), (False, False), (None, True)]),
+    ("NOT {0}", [(None,), (True,), (0,), ('',)]),
+    ("coalesce({0} AND {1}, {2})", [(None, False, True), (False, None, True)]),
+    ("({0} / {1} > {2}) AND {3}", [(D('1.0'), D('0.0'), 0, False), (D('1.0'), D('2.0'), 0, False), (D('1.0'), D('0.0'), 0, True)]),
+    ("{3} AND ({0} / {1} > {2})", [(D('1.0'), D('0.0'), 0, False), (D('1.0'), D('0.0'), 0, True)]),
+    ("({0} / {1} > {2}) OR {3}", [(D('1.0'), D('0.0'), 0, True), (D('1.0'), D('0.0'), 0, False), (D('1.0'), D('2.0'), 0, False)]),
+    ("({0} % {1} = {2}) AND {3} < {2}", [(7, 0, 1, 2), (7, 0, 1, 0), (7, 3, 1, 2)]),
+    ("(({0} % {1} = {2}) AND {3}) IS NULL", [(7, 0, 1, False), (7, 3, 1, False)]),
+    ("{0} - {1} < {2} AND {3} ~ {4}", [(datetime.date(2024, 1, 31), datetime.date(2024, 1, 1), 31, 'Assets:Cash', 'cash'),
+                                       (datetime.date(2024, 1, 31), datetime.date(2024, 1, 1), 30, 'Assets:Cash', 'cash')]),
 ]
-COLTYPE = {int: 'int', D: 'Decimal', str: 'str', datetime.date: 'date', bool: 'bool'}
+COLTYPE = {int: 'int', D: 'Decimal', str: 'str', datetime.date: 'date', bool: 'bool', type(None): 'bool'}
 
 
 def literal(v):
+    if v is None:
+        return 'NULL'
+    if isinstance(v, bool):
+        return 'TRUE' if v else 'FALSE'
     if isinstance(v, str):
         return "'%s'" % v
     if isinstance(v, datetime.date):
@@ -493,9 +668,20 @@ def literal(v):
     return str(v)
 
 
+def as_parameters(tmpl, vals, named):
+    """the template with its constants as placeholders: `%s` in text order, or `%(pN)s` (a constant the template uses
+    twice repeats its name: it cannot be positional); a parameter is the value its literal denotes"""
+    import re
+    order = [int(m) for m in re.findall(r'\{(\d+)\}', tmpl)]
+    pv = [D(literal(v)) if isinstance(v, D) else v for v in vals]
+    if named or len(set(order)) < len(order):
+        return tmpl.format(*['%%(p%d)s' % i for i in range(len(vals))]), {'p%d' % i: v for i, v in enumerate(pv)}
+    return tmpl.format(*['%s'] * len(vals)), tuple(pv[i] for i in order)
+
+
 def rich_folding(ctx, conn, trace=None):
-    """folded vs per-row over decimals, dates, strings and the function library; row-dependent and
-    context-dependent functions of constants"""
+    """folded vs per-row vs parameters over decimals, dates, strings, NULL / TRUE / FALSE, the boolean connectives and
+    the function library"""
     from harness import tables as ht
     n = bad = 0
     for tmpl, sets in RICH:
@@ -504,20 +690,27 @@ def rich_folding(ctx, conn, trace=None):
             t1 = 'SELECT %s AS r FROM #' % tmpl.format(*[literal(v) for v in vals])
             conn.tables['k'] = ht.HarnessTable('k', [('k%d' % i, COLTYPE[type(v)]) for i, v in enumerate(vals)], [tuple(vals)])
             t2 = 'SELECT %s AS r FROM #k' % tmpl.format(*['k%d' % i for i in range(len(vals))])
-            a, b = bm.run_raw(conn, bm.parsed(t1)), bm.run_raw(conn, bm.parsed(t2))
-            oa, ob = c08mod.project_opaque(a), c08mod.project_opaque(b)
+            e3, params = as_parameters(tmpl, vals, named=n % 2 == 0)
+            t3 = 'SELECT %s AS r FROM #' % e3
+            a, b, c = bm.run_raw(conn, bm.parsed(t1)), bm.run_raw(conn, bm.parsed(t2)), bm.run_raw(conn, bm.parsed(t3), params)
+            oa, ob, oc = c08mod.project_opaque(a), c08mod.project_opaque(b), c08mod.project_opaque(c)
+            rows = lambda o: o['rows'] if o['ok'] else [['exc', o['exc']]]      # noqa
             if trace is not None:
-                trace.append({'op': 'fold', 'id': 900000 + n, 'text': t1, 'folded': oa['rows'] if oa['ok'] else [['exc', oa['exc']]],
-                              'perrow': ob['rows'] if ob['ok'] else [['exc', ob['exc']]]})
+                trace.append({'op': 'fold', 'id': 900000 + n, 'text': t1, 'folded': rows(oa), 'perrow': rows(ob), 'params': rows(oc)})
             ctx.case('rich-fold|' + t1)
+            case = {'kind': 'richfold', 'folded_text': t1, 'perrow_text': t2, 'params_text': t3, 'params': repr(params)}
             if oa['ok'] != ob['ok'] or oa['rows'] != ob['rows']:
                 bad += 1
                 ctx.violation('fold:rich:%s' % tmpl, 'constant expression folded vs evaluated per row from columns',
-                              {'kind': 'richfold', 'folded_text': t1, 'perrow_text': t2}, 'S2C', ob, oa)
+                              case, 'S2C', ob, oa)
             elif oa['ok'] and oa['desc'][0][1] != ob['desc'][0][1] and ob['desc'][0][1] != 'object':
                 bad += 1
                 ctx.violation('fold:rich-type:%s' % tmpl, 'announced type of the folded constant vs the per-row expression',
-                              {'kind': 'richfold', 'folded_text': t1, 'perrow_text': t2}, 'S2C', ob['desc'], oa['desc'])
+                              case, 'S2C', ob['desc'], oa['desc'])
+            if oa['ok'] != oc['ok'] or oa['rows'] != oc['rows'] or (oa['ok'] and oa['desc'][0][1] != oc['desc'][0][1]):
+                bad += 1
+                ctx.violation('params:rich:%s' % tmpl, 'constants passed as parameters vs written as literals',
+                              case, 'S2C', oa, oc)
     return n, bad
 
 
@@ -575,13 +768,13 @@ def impure_folding(ctx, sess):
 # ---- legs ---------------------------------------------------------------------------------------------------
 def s2c(ctx):
     setups = {}
-    for name in ('3', '5') if ctx.quick else ('2', '5'):
+    for name in ('3', '7') if ctx.quick else ('2', '5', '7'):
         r = ctx.tlc('Gen_BQLSession', 'Gen_BQLSession_setup%s.cfg' % name, leg='GEN-setup', workers=1)
         setups[name] = r.printed[0]
     runs = [('Gen_BQLSession_q3.cfg', '3', None)] if ctx.quick else [('Gen_BQLSession_t3.cfg', '5', None), ('Gen_BQLSession_t4.cfg', '2', None)]
     nsim = ctx.pick(600, 8000)
     w = ctx.pick(4, 16)
-    runs.append(('Gen_BQLSession_sim.cfg', '5', 'num=%d' % max(1, nsim // (w * 12))))
+    runs.append(('Gen_BQLSession_sim.cfg', '7', 'num=%d' % max(1, nsim // (w * 12))))
     sessions = {}
     total = good = 0
     ops_seen = {}
@@ -645,9 +838,11 @@ def s2c(ctx):
 
 def c2s(ctx):
     """random histories of <= 40 calls, recorded and judged by TLC"""
-    r = ctx.tlc('Gen_BQLSession', 'Gen_BQLSession_setup5.cfg', leg='GEN-setup', workers=1)
+    r = ctx.tlc('Gen_BQLSession', 'Gen_BQLSession_setup7.cfg', leg='GEN-setup', workers=1)
     setup = r.printed[0]
     sess = Session(ctx, setup)
+    bm.install_tables(sess.conn2, sess.tabs, sess.st)
+    sess.leg = 'C2S'
     rng = ctx.rng
     st = sess.st
     # the statements of the trace: the modelled ones, then the ledger statements (opaque: placeholders only)
@@ -670,8 +865,23 @@ def c2s(ctx):
     nlines = 1
     ncalls = 0
     eid = 0
+    nfresh = 0
+
+    def fresh_events(f):
+        """every ledger statement x parameters once on a connection of its own (no history): the reference TLC holds
+        all other executions against"""
+        nonlocal eid, nlines, nfresh
+        for k, (text, plist) in enumerate(lobjs):
+            for i in range(len(plist)):
+                eid += 1
+                res = sess.fresh_ledger(k, i)
+                f.write(json.dumps({'op': 'fresh', 'id': eid, 's': nmod + k + 1, 'ps': [i + 1], 'res': res, 'same': sess.data_same()}) + '\n')
+                nlines += 1
+                nfresh += 1
+
     with open(path, 'w') as f, FastParse(real_every=ctx.pick(50, 20)):
         f.write(json.dumps({'op': 'setup', 'id': 0, 'stmts': tstmts, 'params': tparams, 'tabs': setup['tabs']}) + '\n')
+        fresh_events(f)
         for hno in range(nhist):
             f.write(json.dumps({'op': 'begin', 'id': eid}) + '\n')
             nlines += 1
@@ -679,7 +889,7 @@ def c2s(ctx):
             for _ in range(rng.randint(3, 40)):
                 eid += 1
                 sess.interleave(rng)
-                s = rng.randrange(len(tstmts))
+                s = rng.randrange(nmod) if rng.random() < 0.5 else rng.randrange(nmod, len(tstmts))
                 r = rng.random()
                 if s not in objs or r < 0.08:
                     if s < nmod:
@@ -696,27 +906,23 @@ def c2s(ctx):
                     op, ps = 'text', [rng.randrange(npar)]
                 else:
                     op, ps = 'many', [rng.randrange(npar) for _ in range(rng.randint(1, 4))]
+                conn = 1
                 if s < nmod:
                     raw = sess.call(objs, op, s, ps)
                     res = bm.project(raw, st)
                 else:
-                    text, plist = lobjs[s - nmod]
-                    cur = sess.cursor
-                    try:
-                        if op == 'execute':
-                            cur.execute(objs[s], plist[ps[0]])
-                        elif op == 'text':
-                            cur.execute(text, plist[ps[0]])
-                        else:
-                            cur.executemany(text, [plist[i] for i in ps])
-                        res = {'ok': True, 'hash': digest(cur.description, cur.fetchall())}
-                    except Exception as ex:  # noqa
-                        res = {'ok': False, 'hash': 'EXC', 'exc': type(ex).__name__, 'msg': str(ex)[:120]}
-                ev = {'op': op, 'id': eid, 's': s + 1, 'ps': [i + 1 for i in ps], 'res': res, 'same': sess.data_same()}
+                    # (either of the two connections: the result is a function of text, parameters and data)
+                    conn = 1 if rng.random() < 0.7 else 2
+                    res = sess.run_ledger(sess.cursor if conn == 1 else sess.cursor2, s - nmod, ps, op, tree=objs[s])
+                ev = {'op': op, 'id': eid, 's': s + 1, 'ps': [i + 1 for i in ps], 'res': res, 'same': sess.data_same(), 'conn': conn}
                 f.write(json.dumps(ev) + '\n')
                 nlines += 1
                 ncalls += 1
-        # folding events: a constant expression folded / evaluated per row (values outside the model: opaque)
+        # once more on new connections, made after everything else has run in the process
+        f.write(json.dumps({'op': 'begin', 'id': eid}) + '\n')
+        nlines += 1
+        fresh_events(f)
+        # folding events: a constant expression folded / evaluated per row / with parameters (values outside the model: opaque)
         folds = []
         rich_folding(ctx, sess.conn, trace=folds)
         for ev in folds:
@@ -743,7 +949,7 @@ def c2s(ctx):
         hist = [{k: v for k, v in h.items() if k != 'res' or h is hist[-1]} for h in hist]
         case = {'kind': 'c2s', 'event': ev, 'history': hist, 'spec': rj, 'setup': setup}
         if ev['op'] == 'fold':
-            ctx.violation('c2s:fold', 'folded and per-row values differ', case, 'C2S', ev['perrow'], ev['folded'])
+            ctx.violation('c2s:fold', 'folded, per-row and parameter values differ', case, 'C2S', ev['perrow'], [ev['folded'], ev['params']])
         elif not ev.get('same', True):
             ctx.violation('c2s:data-mutated:%s' % ev['op'], 'source data changed by the call', case, 'C2S')
         elif not ev['res']['ok'] and ev['res'].get('exc') == 'ProgrammingError' and 'cannot be mixed' in ev['res'].get('msg', '') \
@@ -756,7 +962,8 @@ def c2s(ctx):
     if not sess.data_same():
         ctx.violation('data-mutated:end', 'source tables / ledger entries differ at the end of the recording', {'kind': 'end'}, 'C2S')
     ctx.traces += nlines - 1 - len(rejected)
-    ctx.leg('C2S', histories=nhist, lines=nlines - 1, calls=ncalls, fold_events=len(folds), rejected=len(rejected), **sess.counts)
+    ctx.leg('C2S', histories=nhist, lines=nlines - 1, calls=ncalls, fresh_connection_calls=nfresh, ledger_statements=len(lobjs),
+            fold_events=len(folds), rejected=len(rejected), **sess.counts)
 
 
 def run(ctx):
@@ -788,6 +995,8 @@ def run(ctx):
         if res.violated:
             ctx.violation('spec:fold:' + ','.join(res.violated), 'folding changes the value of an expression',
                           {'kind': 'mc', 'behaviour': res.behaviour[:3000]}, 'MC')
+        # non-vacuity of the folding law over the connectives: `a constant FALSE decides an AND wherever it stands`
+        ctx.tlc('MC_BQLSession', 'MC_BQLSession_fold_absorb.cfg', leg='MC-nonvacuity', expect_violation='FoldLawAbsorb', workers=1)
     if not only or 'S2C' in only:
         s2c(ctx)
     if not only or 'C2S' in only:
